@@ -31,6 +31,49 @@ TEXT = {
             "5 (C09)", "Kani/CBMC over eval_call_method + z3 over the MIR of the dispatch tables"),
 }
 
+TEXT.update({
+    "C02": ("Bounded model checking of the real compile_into, one AST node at a time: the emitted instruction schema, its net operand-stack "
+            "effect for keep_result both ways (the discard path the suite never takes), constant-pool references of the right kind, in "
+            "three frame kinds, for every literal value and variable name assignment. Partial: arms with several children are not covered.",
+            "5 (C02)", "Kani/CBMC over compile_into per AST arm with a stack-effect interpreter"),
+    "C05": ("Step refinement by bounded model checking: for each VM kernel, from an arbitrary small pre-state (every Pointer symbolic, "
+            "operands selecting right kind / wrong kind / out of range) the post-state equals the documented instruction semantics and the "
+            "kernel fails exactly where they are undefined. One step from every state of the shape covers histories of any length whose "
+            "states stay inside the shape. Partial: call and object-creation kernels do not fit CBMC.",
+            "5 (C05)", "Kani/CBMC per eval_* kernel against the documented instruction semantics"),
+    "C07": ("z3 over the LALR tables lalrpop generates from the current grammar (merged symbolic execution of the LR automaton: every operator "
+            "tuple up to the bound groups as the documented precedence and left associativity prescribe; else-binding and chain templates), z3 "
+            "regular-expression equivalence for the lexer's skip and token languages (no length bound), and Kani for the operator fold "
+            "(a op b = a.op(b), left fold). Counterexamples are replayed through /repo's real lexer and parser.",
+            "5 (C07)", "z3 over generated LALR tables and lexer regexes + Kani operator fold"),
+    "C10": ("The kernel harnesses double as failure checks: on every state where the documented step is undefined the kernel returns Err (or a "
+            "listed Rust arithmetic panic), no other panic / unwrap / index / unreachable is reachable from any state of the shape, the fetch loop "
+            "stops at the first failure, and a failing print writes nothing. Partial: exit status and stderr are main.rs; native recursion depth "
+            "is not decided.", "5 (C10)", "Kani/CBMC failure conjuncts of the VM kernels + z3 over the dispatch MIR"),
+    "C11": ("Per-kernel noninterference by bounded model checking: a cross-section of serializer, compiler and VM kernels equals a reference "
+            "that is a function of the harness inputs only; reachable clock / environment / randomness would be a Kani failure, and with overflow "
+            "checks on, the absence of any failing arithmetic check makes debug and release compute the same function (the MIR/z3 task models "
+            "Rust's overflow panics explicitly).", "5 (C11)", "Kani/CBMC kernel = reference function of inputs; z3 over MIR with overflow panics"),
+    "C12": ("Bounded model checking of the scope kernel through the public compiler API: for each sequence of let / read / assign / enter / leave "
+            "(kinds are the shape, every name symbolic over two names) in three frame kinds, every access resolves to the slot the README's block "
+            "scoping rules give (innermost visible definition, fresh slot per shadowing let, left scopes invisible, top-level lets are globals). "
+            "Partial: function isolation and run-time observation are not covered.", "5 (C12)", "Kani/CBMC scope-operation sequences vs a reference resolver"),
+    "C13": ("VM side by bounded model checking: operands are popped exactly once and in the pushed order (branch, array, set slot), the value of "
+            "a let / assignment is compiled before the store. Partial: argument / member order of calls and objects is not covered by the solver.",
+            "5 (C13)", "Kani/CBMC VM-side operand order and multiplicity"),
+    "C14": ("Bounded model checking of field access through heap references (in-place update visible through the reference, non-objects rejected) "
+            "and z3 over the MIR of the built-in dispatch tables. Partial: parent-chain dispatch does not fit CBMC.",
+            "5 (C14)", "Kani/CBMC field kernels + z3 over dispatch MIR"),
+    "C15": ("Bounded model checking of the print state machine for every ASCII format string up to 5 bytes (escapes, copied characters, "
+            "placeholder without argument fails, nothing written on failure, null pushed), a two-byte character copied unchanged, and z3 inclusion "
+            "both ways between the lexer's string-literal language and the escapes print accepts. Partial: prints with arguments and value "
+            "rendering do not fit CBMC.", "5 (C15)", "Kani/CBMC print state machine + z3 lexer/print escape agreement"),
+    "C16": ("Bounded model checking of Heap::allocate accounting (returns the old length, appends one cell, adds exactly size() > 0, size depends "
+            "on shape only) through a guarded read accessor, exactly one allocation per successful array creation and none on failure or in any "
+            "other kernel, under an arbitrary --heap-size. Partial: the CSV file is I/O; object creation does not fit CBMC.",
+            "5 (C16)", "Kani/CBMC allocation accounting per kernel"),
+})
+
 TRUSTED = ("Trusted: rustc MIR -> Kani GOTO translation, CBMC, CaDiCaL, z3; the Vec-backed models of HashMap/HashSet/IndexMap "
            "(counterexamples are replayed with the real containers); the stubs listed in the evidence file. Bounded: see "
            "coverage.bounds / outside_the_bounds in the evidence.")
@@ -75,7 +118,7 @@ def main():
             "guard": "--cfg kondziu_fml_verif",
             "enable": "the harness crates' build.rs emits cargo:rustc-cfg=kondziu_fml_verif; /repo's own build never sets it",
             "baseline_off_cmd": "cd /repo && cargo test --workspace --no-fail-fast --offline",
-            "source_commits": [],
+            "source_commits": ["48755db"],
             "add_only": True,
         },
         "engines": [
